@@ -209,6 +209,19 @@ def check_timeout(case):
   puts = [p for p in res['recs'] if p[0] == 'put']
   n_inv = len([e for e in log if e[0] == 'put'])
   invs = 2 if case.get('rot') else 1
+  if case.get('kill_stall'):
+    # whichever way the race between the kill and the body's own end goes: the run reports the timeout or the body's own
+    # result, the executor survives, teardown and plug tearDown run
+    own = {'returns': 'PASS', 'killable': 'FAIL', 'late': 'FAIL'}[case['kind']]      # killable never sets its measurement
+    r.classes.append('kill-stall')
+    if res['outcome'] not in ('TIMEOUT', own):
+      r.bad('C12/timeout/kill-raced-with-exit/outcome-%s' % res['outcome'], '%s t=%s d=%s plan=%r: outcome %s, records %r' % (
+          tag, case['t'], case['d'], case.get('plan'), res['outcome'], res['recs']))
+    if not any(e[0] == 'plug-td' for e in log):
+      r.bad('C12/timeout/plug-teardown-skipped', '%s plan=%r: log %r' % (tag, case.get('plan'), log))
+    if case['pos'] in ('main', 'teardown') and not any(e[0] == 'td-end' for e in log):
+      r.bad('C12/timeout/group-teardown-skipped', '%s plan=%r: log %r' % (tag, case.get('plan'), log))
+    return r, s
   if case['kind'] == 'rot-recovers':
     # "a phase still running when its timeout expires is abandoned: the run reports TIMEOUT" - also when the phase is then
     # repeated and the repeat succeeds (the abandoned invocation's record is ERROR/timeout, and C01 allows no PASS with it)
@@ -476,6 +489,12 @@ def run_job(job, acct):
             r2, _ = check_timeout(c2)
             r2.classes.append('stall-in-update')
             record(c2, r2)
+      # the body ends by itself right after its deadline while the executor is on its way to kill it
+      if case['kind'] in ('returns', 'killable', 'late') and case['d'] != 'inf' and case['t'] in (0.5, 3.0) and not case.get('flag') and \
+          abs(case['d'] - (case['t'] + EPS)) < 1e-9 and not case.get('rot'):
+        for c2 in kill_stall_variants(case, s0):
+          r2, _ = check_timeout(c2)
+          record(c2, r2)
       # stalls (the OS deschedules a thread for seconds between two lines): in the phase thread after the body has
       # returned, and in the executor thread; only for bodies that finish before the deadline
       d = float('inf') if case['d'] == 'inf' else case['d']
@@ -513,6 +532,16 @@ def stalled_variants(case, s0):
       (tidx == 1 and tag[1] == 'join_or_die'))]
   for k in pts:
     yield dict(case, plan={str(k): ['stall', tt + 10.0]}, expect={str(k): list(where[k])})
+
+
+def kill_stall_variants(case, s0):
+  """The body ends by itself 10 ms after its deadline; the executor, which has found it alive at the deadline, is descheduled
+  for 20 ms at every line of its kill path (join_or_die / kill / async_raise / _is_thread_proc_running): the thread is gone
+  by the time the asynchronous exception is set."""
+  where = {k: (tidx, tag[1], tag[2]) for k, tidx, tag in s0.tags if tag and tag[0] == 'line'}
+  pts = [k for k, tidx, tag in s0.tags if tag and tag[0] == 'line' and tidx == 1 and tag[1] in ('kill', 'async_raise', '_is_thread_proc_running', 'join_or_die')]
+  for k in pts:
+    yield dict(case, plan={str(k): ['stall', 2 * EPS]}, expect={str(k): list(where[k])}, kill_stall=1)
 
 
 def replay(case):
